@@ -1,6 +1,7 @@
 """registry.py — which streams and oracles decide which property."""
 from props import *
 import urllib.parse
+import json
 import oracles as O
 
 
@@ -21,6 +22,7 @@ def gen_C01(ctx):
     out += st_long(ctx, shapes, "c01-long", every=ctx.tier == "thorough")
     out += st_classes(ctx, shapes, "c01-cls")
     out += st_huge(ctx)
+    out += st_scalars_parse(utf8_boundary_scalars())
     return out
 
 
@@ -38,6 +40,7 @@ def gen_C03(ctx):
     out += st_classes(ctx, ["S", "P"], "c03-cls") + st_classes_build(ctx, ["S", "P", "CB", "M"], "c03-clsb")
     out += st_fmtlim(ctx, ctx.n(1500, 100000), ["S", "P"], "c03-fmtlim")
     out += st_scalars(["ns", "name", "version", "qvalue", "subpath"], step=1 if ctx.tier == "thorough" else 4099)
+    out += st_scalars_at(utf8_boundary_scalars(), ["ns", "name", "version", "qvalue", "subpath"])
     if ctx.tier == "quick":
         out += st_scalars(["ns", "name", "version", "qvalue", "subpath"], limit=256)
     if ctx.tier == "thorough":
@@ -55,6 +58,7 @@ def gen_C04(ctx):
     out += st_long(ctx, shapes, "c04-long", every=ctx.tier == "thorough")
     out += st_classes(ctx, shapes, "c04-cls") + st_classes_build(ctx, ["S", "P", "CB", "CO", "M"], "c04-clsb")
     out += st_cksum_texts(ctx, ("parse", "build"))
+    out += st_scalars_parse(utf8_boundary_scalars())
     return out
 
 
@@ -80,6 +84,7 @@ def gen_C06(ctx):
             case("quals inst:7:%s;inst:8:%s;gett:7;gett:8;gett:5;iter;rmt:8;iter" % (hx("x86"), hx("u")), "typed-custom-key")]
     out += [case("quals idx:%s" % hx("zz"), "documented-panic", documented_panic=True),
             case("quals ins:%s:%s;idxmut:%s:%s" % (hx("a"), hx("1"), hx("b"), hx("2")), "documented-panic", documented_panic=True)]
+    out += st_scalars_parse(utf8_boundary_scalars())
     return out
 
 
@@ -92,6 +97,21 @@ def gen_C10(ctx):
     out += st_cksum_texts(ctx, ("parse", "build"))
     out += [c for c in st_scalars(["name", "pypi", "pypi2"], step=1 if ctx.tier == "thorough" else 977, shapes=("P",))]
     out += st_huge(ctx)
+    out += st_pypi_runs(ctx)
+    return out
+
+
+def st_pypi_runs(ctx):
+    """every pypi name of length 4..6 (thorough: ..8) over one letter and the three separators: runs of separators of
+    every length next to one another (a rule that collapses runs must reach its fixpoint in ONE application)"""
+    import itertools as _it
+    out = []
+    for k in range(4, 7 if ctx.tier == "quick" else 9):
+        for tup in _it.product("a-_.", repeat=k):
+            nm = "".join(tup)
+            if "a" not in nm:
+                continue
+            out.append(case("build P PyPI %s -" % hx(nm), "pypi-runs", ident="PyPI", name_in=nm, expect_name=O.name_rule(ctx.uni, "pypi", nm), shape="P"))
     return out
 
 
@@ -175,6 +195,7 @@ def gen_C08(ctx):
             for ident, ty in (("NuGet", "nuget"), ("PyPI", "pypi"), ("Cargo", "cargo")):
                 out.append(case("build P %s %s -" % (ident, hx(nm)), "names-exhaustive", ident=ident, name_in=nm,
                                 expect_name=O.name_rule(ctx.uni, ty, nm)))
+    out += st_pypi_runs(ctx)
     # every scalar value through the nuget and pypi rules (sampled in the quick tier)
     step = 1 if ctx.tier == "thorough" else 211
     for cp in range(0x80, 0x110000, step):
@@ -242,6 +263,8 @@ def gen_C07(ctx):
     out += st_malformed(ctx, ctx.n(4000, 300000), ["S", "P"], "c07-mal")
     out += st_long(ctx, ["S", "M", "P"], "c07-long", every=ctx.tier == "thorough")
     out += st_classes(ctx, ["S", "M", "P"], "c07-cls")
+    out += [dict(c, stream="scheme-c07") for c in st_scheme_subst(["S"]) if "%" in c["s"]]
+    out += st_scalars_parse(utf8_boundary_scalars())
     return out
 
 
@@ -420,6 +443,14 @@ def gen_C16(ctx):
             for sh in ("S", "P"):
                 out.append(case("parsel %s %s" % (sh, hx(s)), "de-reference-long", s=s[:40], shape=sh, nomodel=True))
                 out.append(case("serde %s delen %s" % (sh, hx(s)), "de-long", s=s[:40], shape=sh, reference=len(out) - 1, nomodel=True))
+    # what XML / HTML / JSON layers leave behind is plain text to a PURL: deserialising such a string = parsing it
+    for ent in ENTITIES:
+        for tpl in ("pkg:generic/name?arch=x86#docs/a%sb", "pkg:generic/name?a=1%sb=2", "pkg:t/n%s/x@1%s?k=v%s", "pkg:t/%s", "pkg%st/n", "pkg:npm/name@1.0?arch=x86#a%sb"):
+            s_ = tpl.replace("%s", ent)
+            for sh in ("S", "P"):
+                out.append(case("parse %s %s" % (sh, hx(s_)), "de-reference", s=s_, shape=sh))
+                out.append(case("serde %s de %s" % (sh, hx(json.dumps(s_))), "de-string", doc=json.dumps(s_), s=s_, shape=sh, reference=len(out) - 1))
+                out.append(case("serde %s dev str %s" % (sh, hx(s_)), "dev-string", s=s_, shape=sh, kind="str", reference=len(out) - 2))
     # deserialize_in_place over an existing value: the result is what the string parses to, whatever was there
     olds = ["pkg:golang/github.com/a/b@v1?arch=x86&checksum=sha1:00ff#cmd/tool", "pkg:maven/org.apache/commons@1", "pkg:npm/%40angular/cli", "pkg:t/n"]
     news = ["pkg:npm/foo#", "pkg:npm/foo#/", "pkg:npm/foo#./..", "pkg:npm//cli", "pkg:maven//commons", "pkg:maven///commons@2", "pkg:t/n?", "pkg:t/n@",
